@@ -46,13 +46,15 @@ HstrpRecv(h, m) ==
   ELSE
   LET f == m.f IN
   IF f.conn THEN
-       [h |-> [h EXCEPT !.connected = TRUE],
-        sent |-> IF f.ack /\ ~AckTheAcks THEN <<>> ELSE <<AckOf(m)>>, handled |-> TRUE]
+       IF f.rej THEN [h |-> h, sent |-> <<>>, handled |-> TRUE]      \* REJECT of our own CONNECT: no connect, not answered
+       ELSE [h |-> [h EXCEPT !.connected = TRUE],
+             sent |-> IF f.ack /\ ~AckTheAcks THEN <<>> ELSE <<AckOf(m)>>, handled |-> TRUE]
   ELSE IF f.hb THEN
        [h |-> h, sent |-> IF h.connected THEN <<Heartbeat>> ELSE <<>>, handled |-> TRUE]
   ELSE IF f.close THEN
-       [h |-> [h EXCEPT !.connected = FALSE],
-        sent |-> IF f.ack /\ ~AckTheAcks THEN <<>> ELSE <<AckOf(m)>>, handled |-> TRUE]
+       IF f.rej THEN [h |-> h, sent |-> <<>>, handled |-> TRUE]      \* REJECT of our own CLOSE: no close, not answered
+       ELSE [h |-> [h EXCEPT !.connected = FALSE],
+             sent |-> IF f.ack /\ ~AckTheAcks THEN <<>> ELSE <<AckOf(m)>>, handled |-> TRUE]
   ELSE IF f.ack THEN [h |-> h, sent |-> <<>>, handled |-> TRUE]
   ELSE IF f.rej THEN [h |-> h, sent |-> <<>>, handled |-> TRUE]        \* a REJECT is the negative acknowledgement: not answered
   ELSE [h |-> h, sent |-> <<AckOf(m)>>, handled |-> FALSE]
@@ -85,7 +87,8 @@ PureClose(m)   == m.f.close /\ ~m.f.conn /\ ~m.f.hb /\ ~m.f.ack /\ ~m.f.rej
 PureData(m)    == ~m.f.conn /\ ~m.f.close /\ ~m.f.hb /\ ~m.f.ack /\ ~m.f.rej
 IsAck(m)       == m.f.ack
 \* the negative form of an acknowledgement, as hstrp_send_ack(reject=True) forms it
-PureReject(m)  == m.f.rej /\ ~m.f.ack /\ ~m.f.conn /\ ~m.f.close /\ ~m.f.hb
+PureReject(m)  == m.f.rej /\ ~m.f.ack /\ ~m.f.hb /\ ~(m.f.conn /\ m.f.close)      \* also the REJECT of our CONNECT / CLOSE (type bit kept)
+RejectOfConnectOrClose(m) == PureReject(m) /\ (m.f.conn \/ m.f.close)
 \* the acknowledgement of OUR connect / close as the peer's hstrp_send_ack forms it (the request's type bit kept, ack set):
 \* seeing it is seeing the connect / close completed
 ConnectAck(m)  == m.f.conn /\ m.f.ack /\ ~m.f.close /\ ~m.f.hb /\ ~m.f.rej
@@ -105,6 +108,7 @@ MonRecv(mon, m, o, preConnected) ==
                    o.sent[i].sn # m.sn \/ o.sent[i].payload # "none" THEN "AckSameSnNoPayload"
         ELSE IF judged /\ IsAck(m) /\ Acks(o.sent) # {} THEN "AcksNotAnswered"
         ELSE IF judged /\ PureReject(m) /\ Acks(o.sent) # {} THEN "AcksNotAnswered(reject)"
+        ELSE IF judged /\ RejectOfConnectOrClose(m) /\ o.connected # preConnected THEN "ConnectedIsLastConnectClose"
         ELSE IF Hbs(o.sent) # {} /\ ~preConnected THEN "HeartbeatOnlyWhenConnected"
         ELSE IF judged /\ Hbs(o.sent) # {} /\ ~m.f.hb THEN "HeartbeatOnlyEchoed"
         ELSE IF judged /\ (PureConnect(m) \/ ConnectAck(m)) /\ ~o.connected THEN "ConnectedIsLastConnectClose"
